@@ -176,3 +176,7 @@ for _p in ("C09", "C10", "C16", "C18"):
 PROPS["C04"]["site_coverage"] = True
 PROPS["C04"]["kinds"] = ["conv", "c03", "c19", "c12", "reply"]
 PROPS["C04"]["trusted_base"] = PROPS["C04"]["trusted_base"] + ["tools/replysites (go/ast): reads every writeResponse/protocolError/writeError call, dataErrorToStatus return and SMTPError literal out of /repo, and the reply literals of Conn.v/Reply.v by a regular expression; coq/gen/ReplySites.v is regenerated on every run"]
+
+PROPS["C09"]["kinds"] = ["c09", "tls", "conv", "c08", "cli"]
+PROPS["C09"]["rule"] = "c09: AUTH exchanges against the real server: scripted SASL servers of 0..3 challenges (empty, text, binary) ending in success / mechanism error / SMTPError / script exhaustion x initial response {none, '=', PLAIN-shaped, bad base64, binary} x later client lines {base64, '=', empty, '*', bad base64, binary} x {plaintext with AllowInsecureAuth, implicit TLS (real crypto/tls), plaintext without}, each followed by NOOP, a second AUTH and QUIT (quick: every 5th combination). " + PROPS["C09"]["rule"]
+PROPS["C04"]["kinds"] = ["conv", "c03", "c19", "c12", "c09", "reply"]
